@@ -112,6 +112,10 @@ func evalC18(c *Ctx, cs EnumCase) EnumResult {
 				_ = v.Send(make64(protocol.COMMAND_PING))
 			}
 			v.TakeBin()
+			// the connection has been used before (its per-connection command pool is warm)
+			_ = v.Send(wire.BinFrame(hapi.Cmd{Type: 1, Req: 20, Key: 20, Id: 20, Expried: 8}))
+			_ = v.Send(wire.BinFrame(hapi.Cmd{Type: 2, Req: 21, Key: 20, Id: 20}))
+			v.TakeBin()
 			_ = v.Send(wire.BinFrame(hapi.Cmd{Type: 1, Req: 2, Key: 1, Id: 1, Expried: 8})) // a hold the victim leaves behind
 			v.TakeBin()
 			// wills: lock key 10 (id a), lock key 10 again (id b: refused if run after the first), unlock the own hold on key 1
@@ -219,6 +223,23 @@ func evalC18(c *Ctx, cs EnumCase) EnumResult {
 					add("text-will-not-run-once", fmt.Sprintf("text will %d: key holds %v after the close", i, ks))
 				}
 			}
+		}
+		// an unrelated connection with several requests outstanding at once: the hold the victim left behind keeps
+		// its identity (key, LockId) and can still be released by its LockId
+		if !k.Text && k.Wills < 3 && !k.SelfQueue && closeT < t0+6*sec {
+			un, _ := wire.Dial(addr)
+			for i := byte(0); i < 4; i++ {
+				_ = un.Send(wire.BinFrame(hapi.Cmd{Type: 1, Req: 50 + i, Key: 21 + i, Id: 60 + i, Expried: 30}))
+			}
+			un.TakeBin()
+			if hs := holdersOf(1); len(hs) != 1 || hs[0].LockId[15] != 1 {
+				add("left-hold-changed-identity", fmt.Sprintf("after the disconnect and four LOCKs of an unrelated connection the hold left on key 1 (LockId 1) reads %s", holdsOf(hs)))
+			}
+			for i := byte(0); i < 4; i++ {
+				_ = un.Send(wire.BinFrame(hapi.Cmd{Type: 2, Req: 60 + i, Key: 21 + i, Id: 60 + i}))
+			}
+			un.TakeBin()
+			un.Close()
 		}
 		// reconnect under the same client id
 		if k.Reconnect == "before-late-reply" {
